@@ -52,6 +52,28 @@ func backwardSliceOpt(v ssa.Value, direct bool, visit func(ssa.Value) bool) bool
 		if visit(v) {
 			return true
 		}
+		if fv, ok := v.(*ssa.FreeVar); ok {
+			// a captured variable: what the enclosing function bound it to
+			cl := fv.Parent()
+			idx := -1
+			for i, x := range cl.FreeVars {
+				if x == fv {
+					idx = i
+				}
+			}
+			if outer := cl.Parent(); outer != nil && idx >= 0 {
+				for _, b := range outer.Blocks {
+					for _, in := range b.Instrs {
+						if mc, ok := in.(*ssa.MakeClosure); ok && mc.Fn == ssa.Value(cl) && idx < len(mc.Bindings) {
+							if rec(mc.Bindings[idx], depth+1) {
+								return true
+							}
+						}
+					}
+				}
+			}
+			return false
+		}
 		if a, ok := v.(*ssa.Alloc); ok {
 			if storedInto(a, func(x ssa.Value) bool { return rec(x, depth+1) }) {
 				return true
